@@ -8,8 +8,8 @@ oracle that is written from the property statement and shares no code with the l
   structural chain (stops at the first broken link, orientation excepted, so one defect = one report)
       C14.valid.indices_in_range     every face index in [0, #vertices)
       C14.valid.well_formed_faces    every face has >= 3 pairwise distinct vertices
-      C14.valid.no_repeated_face     no two faces on the same vertex set
       C14.valid.manifold             every edge in <= 2 faces, faces around a vertex form ONE fan
+      C14.valid.no_repeated_face     no two faces on the same vertex set
       C14.valid.orientation          no directed edge used twice          (reported, chain goes on)
       C14.topology                   #components, Euler characteristic (used vertices), #border loops
       C14.valid.no_unused_vertex     reported when the rest of the chain held
@@ -42,12 +42,15 @@ ASSUMPTIONS = [
     "orientation of the faces of a volume mesh is not part of the statement",
 ]
 BOUNDS = {
-    "quick": "resolutions 3..5 per axis independently (grids/unit_triangle 2..5, sphere_uv n_lat 2..5), radii {1/2,1,2}, "
-             "centres {0,(1,2,3)}, 4 lattice axes, ring N 3..5 x defects {0,0.3,pi/2,pi} x open x covers {1,2}, "
-             "icosphere 0..2, fibonacci 4..12, all switch combinations, dual of 11 closed + 7 bordered generator outputs",
-    "thorough": "resolutions 3..8 per axis independently (grids/unit_triangle 2..8, sphere_uv n_lat 2..8), radii {1/2,1,2}, "
-                "centres {0,(1,2,3)}, 6 lattice axes, ring N 3..8 x defects {0,0.3,pi/2,pi,5} x open x covers {1,2,3}, "
-                "icosphere 0..3, fibonacci 4..40, all switch combinations, dual of 22 closed + 12 bordered generator outputs",
+    "quick": "814 cases: resolutions 3..6 per axis independently (unit_grid/unit_triangle 2..6, sphere_uv n_lat 2..6), radii "
+             "{1/2,1,2}, centres {0,(1,2,3)}, 4 lattice axes, torus radii {(1,1/4),(2,1/2)}, ring N 3..6 x defects "
+             "{0,0.3,pi/2,pi} x open x covers {1,2}, icosphere 0..2, fibonacci 4..12, chains 1..6 vertices, all switch "
+             "combinations, dual_mesh of 11 closed + 7 bordered generator outputs x 2 modes",
+    "thorough": "4046 cases: resolutions 3..12 per axis independently (unit_grid/unit_triangle 2..12, sphere_uv n_lat 2..12), "
+                "radii {1/2,1,2}, centres {0,(1,2,3)}, 6 lattice axes, 5 torus radius pairs, ring N 3..12 x defects "
+                "{0,0.3,pi/2,pi,5} x open x covers {1,2,3}, icosphere 0..4, fibonacci 4..80, chains 1..12 vertices, "
+                "tetrahedron on all 24 orderings of a lattice quadruple, all switch combinations, dual_mesh of 18 closed + "
+                "12 bordered generator outputs x 2 modes",
 }
 
 TOL = 1e-9
@@ -83,13 +86,6 @@ def analyse(faces, n):
     if deg:
         res.update(broken="well_formed_faces", witness={"face_index": deg[0][0], "face": deg[0][1], "n_bad_faces": len(deg)})
         return res
-    seen = {}
-    for i, f in enumerate(faces):
-        k = frozenset(f)
-        if k in seen:
-            res.update(broken="no_repeated_face", witness={"faces": [seen[k], i], "face": list(f)})
-            return res
-        seen[k] = i
     und, directed_twice = {}, []
     dirs = set()
     for fi, f in enumerate(faces):
@@ -102,24 +98,34 @@ def analyse(faces, n):
             dirs.add((a, b))
     over = sorted(e for e, l in und.items() if len(l) > 2)
     if over:
-        res.update(broken="manifold", kind="edge_in_more_than_two_faces", witness={"edge": list(over[0]), "faces": und[over[0]]})
+        res.update(broken="manifold", witness={"why": "edge_in_more_than_two_faces", "edge": list(over[0]), "faces": und[over[0]]})
         return res
     # faces around a vertex: one fan <=> the faces incident to v are connected through edges incident to v
     inc = [[] for _ in range(n)]
     for fi, f in enumerate(faces):
         for v in f:
             inc[v].append(fi)
+    pairs_at = [[] for _ in range(n)]
+    for (a, b), l in und.items():
+        if len(l) == 2:
+            pairs_at[a].append(l); pairs_at[b].append(l)
     for v in range(n):
         fl = inc[v]
         if len(fl) <= 1:
             continue
         par = {fi: fi for fi in fl}
-        for (a, b), l in und.items():
-            if (a == v or b == v) and len(l) == 2:
-                _union(par, l[0], l[1])
+        for l in pairs_at[v]:
+            _union(par, l[0], l[1])
         if len({_find(par, fi) for fi in fl}) > 1:
-            res.update(broken="manifold", kind="vertex_with_several_fans", witness={"vertex": v, "faces": [list(faces[fi]) for fi in fl]})
+            res.update(broken="manifold", witness={"why": "vertex_with_several_fans", "vertex": v, "faces": [list(faces[fi]) for fi in fl]})
             return res
+    seen = {}
+    for i, f in enumerate(faces):
+        k = frozenset(f)
+        if k in seen:
+            res.update(broken="no_repeated_face", witness={"faces": [seen[k], i], "face": list(f)})
+            return res
+        seen[k] = i
     res["orientation_ok"] = not directed_twice
     if directed_twice:
         res["orientation_witness"] = {"directed_edge_used_twice": directed_twice[0], "n_such_edges": len(directed_twice)}
@@ -245,10 +251,10 @@ class Cx:
         self.rep, self.gen, self.params = rep, gen, params
         self.callee = "procedural." + gen
 
-    def bad(self, sub, kind, icls, **detail):
+    def bad(self, sub, kind, icls, callee=None, **detail):
         d = {"generator": self.gen, "params": self.params}
         d.update(detail)
-        self.rep.violation("C14." + sub, self.callee, kind, icls, d)
+        self.rep.violation("C14." + sub, callee or self.callee, kind, icls, d)
 
     def ev(self, n=1):
         self.rep.evaluations += n
@@ -274,7 +280,7 @@ class Cx:
         b = res["broken"]
         if b is not None:
             kind = {"indices_in_range": "mismatch:index_out_of_range", "well_formed_faces": "mismatch:degenerate_face",
-                    "no_repeated_face": "mismatch:repeated_face"}.get(b) or ("mismatch:" + res["kind"])
+                    "no_repeated_face": "mismatch:repeated_face", "manifold": "mismatch:non_manifold"}[b]
             self.bad("valid." + b, kind, icls, **res["witness"])
             return res
         # cross-check my chain against the framework's independent checker (they must agree)
@@ -378,7 +384,7 @@ def eqne(a, b):
 # generators: parameter boxes (JSON-pure) and checks
 # =================================================================================================
 def _res(tier, lo=3):
-    return list(range(lo, 6 if tier == "quick" else 9))
+    return list(range(lo, 7 if tier == "quick" else 13))
 
 
 CENTRES = [[0.0, 0.0, 0.0], [1.0, 2.0, 3.0]]
@@ -412,7 +418,7 @@ def _fl(p):
 def enum_tetrahedron(tier):
     quads = list(QUADS4)
     if tier == "thorough":   # every ordering of the first quadruple
-        quads += [[QUADS4[2][i] for i in perm] for perm in itertools.permutations(range(4))]
+        quads += [[QUADS4[2][i] for i in perm] for perm in itertools.permutations(range(4)) if perm != (0, 1, 2, 3)]
     return [{"pts": q, "volume": v} for q in quads for v in BOOLS]
 
 
@@ -468,6 +474,18 @@ def _hexa_surface_checks(cx, m, icls, triangulate, colored):
     cx.rep.outcome("colored", (colored, has))
     if has != bool(colored):
         cx.bad("switch.colored", "mismatch:color_attribute", icls, colored=colored, has_color_attribute=has)
+    elif has:
+        # a colour attribute *on faces*: every entry belongs to a face of the mesh (axis_aligned_cube and
+        # hexahedron_4pts are documented thin wrappers of hexahedron, which owns the colouring)
+        cx.ev()
+        attr = m.faces.get_attribute("color")
+        keys = sorted(int(k) for k in attr) if type(attr).__name__ == "Attribute" else list(range(len(attr)))
+        stray = [k for k in keys if k < 0 or k >= len(faces)]
+        if stray:
+            o = call(lambda: attr.as_array(len(faces)))
+            cx.bad("switch.colored", "mismatch:color_entries_for_nonexistent_faces", "hexahedron:colored:" + ("triangles" if triangulate else "quads"),
+                   callee="procedural.hexahedron", n_faces=len(faces), stray_face_indices=stray,
+                   as_array="ok" if o.ok else o.exc + ": " + o.msg[:80])
     return faces
 
 
@@ -756,7 +774,7 @@ def check_sphere_uv(M, p, rep):
 
 
 def enum_icosphere(tier):
-    ks = [0, 1, 2] if tier == "quick" else [0, 1, 2, 3]
+    ks = [0, 1, 2] if tier == "quick" else [0, 1, 2, 3, 4]
     return [{"n_refine": k, "center": c, "radius": r} for k in ks for c in CENTRES for r in RADII]
 
 
@@ -774,7 +792,7 @@ def check_icosphere(M, p, rep):
 
 
 def enum_sphere_fibonacci(tier):
-    ns = list(range(4, 13)) if tier == "quick" else list(range(4, 41))
+    ns = list(range(4, 13)) if tier == "quick" else list(range(4, 81))
     return [{"n_pts": n, "radius": r, "build_surface": bs} for n in ns for r in RADII for bs in BOOLS]
 
 
@@ -944,7 +962,9 @@ def check_unit_triangle(M, p, rep):
     P = verts_of(m)
     cx.ev()
     out = [P[i].tolist() for i in range(len(P)) if P[i][0] < -TOL or P[i][1] < -TOL or P[i][0] + P[i][1] > 1 + TOL]
-    if out:
+    if res["broken"] is not None:
+        rep.count("geometry_not_examined_on_structurally_broken_mesh")
+    elif out:
         cx.bad("geometry.on_surface", "mismatch:vertex_outside_unit_triangle", icls, outside=out[:4])
     else:
         _planar_cover(cx, P, res, icls, 0.5, [[0, 0], [1, 0], [0, 1]])
@@ -1115,14 +1135,15 @@ def check_dual_mesh(M, p, rep):
     cx.ev()
     by_index = P.shape == C.shape and float(np.abs(P - C).max()) <= 1e-9 * max(1.0, float(np.abs(C).max()))
     if not by_index and not rows_match_as_sets(P, C):
-        cx.bad("geometry.on_surface", "mismatch:dual_vertex_positions", icls, mode=p["mode"], got=P.tolist()[:6], want=C.tolist()[:6])
+        cx.bad("geometry.on_surface", "mismatch:dual_vertex_positions", "dual_mesh:mode=" + p["mode"], source=p["src"],
+               got=P.tolist()[:3], want=C.tolist()[:3])
     if p["bordered"]:
         # the statement promises a valid mesh; which faces the dual of a bordered mesh has is not documented
         res = analyse(faces, len(P))
         cx.ev(2)
         if res["broken"] is not None:
             kind = {"indices_in_range": "mismatch:index_out_of_range", "well_formed_faces": "mismatch:degenerate_face",
-                    "no_repeated_face": "mismatch:repeated_face"}.get(res["broken"]) or ("mismatch:" + res["kind"])
+                    "no_repeated_face": "mismatch:repeated_face", "manifold": "mismatch:non_manifold"}[res["broken"]]
             cx.bad("valid." + res["broken"], kind, icls, **res["witness"])
         elif not res["orientation_ok"]:
             cx.bad("valid.orientation", "mismatch:inconsistent_orientation", icls, **res["orientation_witness"])
@@ -1151,7 +1172,7 @@ def _lattice_path(n):
 
 
 def enum_chain_of_vertices(tier):
-    hi = 7 if tier == "quick" else 11
+    hi = 7 if tier == "quick" else 13
     return ([{"n": n, "loop": False} for n in range(1, hi)] + [{"n": n, "loop": True} for n in range(3, hi)])
 
 
@@ -1336,16 +1357,16 @@ GENERATORS = {
 
 # size of every parameter box (pinned: a change of the enumeration must be deliberate)
 PINNED = {
-    "quick": {"tetrahedron": 8, "hexahedron": 24, "axis_aligned_cube": 4, "hexahedron_4pts": 16, "octahedron": 1,
-              "dodecahedron": 1, "icosahedron": 12, "cylinder": 72, "torus": 36, "sphere_uv": 72, "icosphere": 18,
-              "sphere_fibonacci": 54, "triangle": 4, "quad": 8, "unit_grid": 64, "unit_triangle": 32, "ring": 48,
-              "flat_ring": 24, "dual_mesh": 36, "chain_of_vertices": 10, "vector_field": 36, "spherify_vertices": 24,
-              "cylindrify_edges": 24},
-    "thorough": {"tetrahedron": 56, "hexahedron": 24, "axis_aligned_cube": 4, "hexahedron_4pts": 16, "octahedron": 1,
-                 "dodecahedron": 1, "icosahedron": 12, "cylinder": 216, "torus": 360, "sphere_uv": 252, "icosphere": 24,
-                 "sphere_fibonacci": 222, "triangle": 4, "quad": 8, "unit_grid": 196, "unit_triangle": 98, "ring": 180,
-                 "flat_ring": 90, "dual_mesh": 60, "chain_of_vertices": 18, "vector_field": 36, "spherify_vertices": 36,
-                 "cylindrify_edges": 48},
+    "quick": {'tetrahedron': 8, 'hexahedron': 24, 'axis_aligned_cube': 4, 'hexahedron_4pts': 16, 'octahedron': 1,
+              'dodecahedron': 1, 'icosahedron': 12, 'cylinder': 96, 'torus': 64, 'sphere_uv': 120, 'icosphere': 18,
+              'sphere_fibonacci': 54, 'triangle': 4, 'quad': 8, 'unit_grid': 100, 'unit_triangle': 50, 'ring': 64,
+              'flat_ring': 32, 'dual_mesh': 36, 'chain_of_vertices': 10, 'vector_field': 36, 'spherify_vertices': 24,
+              'cylindrify_edges': 32},                                                             # 814 cases
+    "thorough": {'tetrahedron': 54, 'hexahedron': 24, 'axis_aligned_cube': 4, 'hexahedron_4pts': 16, 'octahedron': 1,
+                 'dodecahedron': 1, 'icosahedron': 12, 'cylinder': 360, 'torus': 1000, 'sphere_uv': 660, 'icosphere': 30,
+                 'sphere_fibonacci': 462, 'triangle': 4, 'quad': 8, 'unit_grid': 484, 'unit_triangle': 242, 'ring': 300,
+                 'flat_ring': 150, 'dual_mesh': 60, 'chain_of_vertices': 22, 'vector_field': 36, 'spherify_vertices': 36,
+                 'cylindrify_edges': 80},                                                          # 4046 cases
 }
 
 
